@@ -1265,3 +1265,496 @@ Proof.
   - apply in_cb_events in Hin as [l [-> _]]. eauto 6.
   - right. right. right. right. eapply forallb_In; eauto.
 Qed.
+
+(* ------------------------------------------------------------------ instance numbers are unique *)
+Definition ids (l : list inst) : list nat := map i_id l.
+
+Record good (s : state) : Prop := mkGood {
+  g_lt : forall x, In x (known s) -> i_id x < next s;
+  g_nodup : NoDup (ids (known s));
+  g_sub : forall x, In x (insts s) -> In x (known s);
+  g_nodup_l : NoDup (ids (insts s)) }.
+
+Lemma remove_id_incl h l x : In x (remove_id h l) -> In x l.
+Proof.
+  induction l as [|y l IH]; simpl; [auto|]. destruct (i_id y =? h); [auto|].
+  intros [H|H]; auto.
+Qed.
+
+Lemma remove_id_nodup h l : NoDup (ids l) -> NoDup (ids (remove_id h l)).
+Proof.
+  induction l as [|y l IH]; simpl; [auto|]. intro H. inversion H as [|a b Hn Hd]; subst.
+  destruct (i_id y =? h); [exact Hd|]. simpl. constructor; [|auto].
+  intro C. apply Hn. unfold ids in *. apply in_map_iff in C as [z [Hz Hin]].
+  apply in_map_iff. exists z. split; [exact Hz|]. eapply remove_id_incl; eauto.
+Qed.
+
+Lemma remove_id_gone h l : NoDup (ids l) -> ~ In h (ids (remove_id h l)).
+Proof.
+  induction l as [|y l IH]; simpl; [auto|]. intro H. inversion H as [|a b Hn Hd]; subst.
+  destruct (i_id y =? h) eqn:E.
+  - apply Nat.eqb_eq in E. subst h. exact Hn.
+  - simpl. intros [C|C]; [apply Nat.eqb_neq in E; auto|]. apply (IH Hd C).
+Qed.
+
+Lemma remove_id_other h l x : In x l -> i_id x <> h -> In x (remove_id h l).
+Proof.
+  induction l as [|y l IH]; simpl; [auto|]. intros [->|H] Hne.
+  - destruct (i_id x =? h) eqn:E; [apply Nat.eqb_eq in E; contradiction|left; reflexivity].
+  - destruct (i_id y =? h); [exact H|right; auto].
+Qed.
+
+Lemma nodup_snoc (l : list nat) a : NoDup l -> ~ In a l -> NoDup (l ++ [a]).
+Proof.
+  induction l as [|b l IH]; simpl; intros H Hn; [constructor; [auto|constructor]|].
+  inversion H as [|c d Hc Hd]; subst. constructor.
+  - intro C. apply in_app_or in C as [C|[C|[]]]; [auto|]. subst. apply Hn. left. reflexivity.
+  - apply IH; auto.
+Qed.
+
+Lemma find_unique l x : NoDup (ids l) -> In x l -> find_inst (i_id x) l = Some x.
+Proof.
+  induction l as [|y l IH]; simpl; [contradiction|]. intros H [->|Hin].
+  - rewrite Nat.eqb_refl. reflexivity.
+  - inversion H as [|a b Hn Hd]; subst. destruct (i_id y =? i_id x) eqn:E; [|auto].
+    apply Nat.eqb_eq in E. exfalso. apply Hn. rewrite E. unfold ids. apply in_map. exact Hin.
+Qed.
+
+Lemma commit_fields ni nx s :
+  insts (commit ni nx s) = insts s ++ [ni] /\ known (commit ni nx s) = known s ++ [ni] /\
+  next (commit ni nx s) = nx /\ once (commit ni nx s) = once s.
+Proof. unfold commit. destruct (spawn (i_id ni) (i_root ni) (i_srv ni) (wg s) (serving s)). simpl. auto. Qed.
+
+Lemma stop_inst_fields o s s' ev : stop_inst o s = (s', ev) ->
+  insts s' = remove_id (i_id o) (insts s) /\ known s' = known s /\ next s' = next s /\ once s' = once s.
+Proof.
+  unfold stop_inst. destruct (stop_servers (i_id o) (i_srv o) (wg s) (serving s)) as [[w sv] e].
+  intro H. injection H as <- <-. simpl. auto.
+Qed.
+
+Lemma good_commit ni s :
+  good s -> i_id ni = next s -> good (commit ni (S (next s)) s).
+Proof.
+  intros [G1 G2 G3 G4] Hid. destruct (commit_fields ni (S (next s)) s) as [A [B [C D]]].
+  assert (Hfresh : forall l, (forall x, In x l -> i_id x < next s) -> ~ In (i_id ni) (ids l)).
+  { intros l Hl Cn. unfold ids in Cn. apply in_map_iff in Cn as [z [Hz Hin]]. specialize (Hl z Hin). lia. }
+  constructor; rewrite ?A, ?B, ?C.
+  - intros x Hx. apply in_app_or in Hx as [Hx|[<-|[]]]; [specialize (G1 x Hx); lia|lia].
+  - unfold ids. rewrite map_app. simpl. apply nodup_snoc; [exact G2|]. apply Hfresh. exact G1.
+  - intros x Hx. apply in_app_or in Hx as [Hx|[<-|[]]]; apply in_or_app; [left; auto|right; left; reflexivity].
+  - unfold ids. rewrite map_app. simpl. apply nodup_snoc; [exact G4|]. apply Hfresh. intros x Hx. auto.
+Qed.
+
+Lemma good_set_wg s w : good s -> good (set_wg s w).
+Proof. intros [G1 G2 G3 G4]. constructor; simpl; auto. Qed.
+Lemma good_set_wg_inv s w : good (set_wg s w) -> good s.
+Proof. intros [G1 G2 G3 G4]. constructor; simpl in *; auto. Qed.
+
+Lemma good_set_next s n : good s -> next s <= n -> good (set_next s n).
+Proof. intros [G1 G2 G3 G4] H. constructor; simpl; auto. intros x Hx. specialize (G1 x Hx). lia. Qed.
+
+Lemma good_stop_inst o s s' ev : stop_inst o s = (s', ev) -> good s -> good s'.
+Proof.
+  intros H [G1 G2 G3 G4]. destruct (stop_inst_fields _ _ _ _ H) as [A [B [C D]]].
+  constructor; rewrite ?A, ?B, ?C; auto.
+  - intros x Hx. apply G3. eapply remove_id_incl; eauto.
+  - apply remove_id_nodup. exact G4.
+Qed.
+
+Lemma good_stop_all l : forall s s' ev, stop_all l s = (s', ev) -> good s -> good s'.
+Proof.
+  induction l as [|o l IH]; intros s s' ev E G; simpl in E.
+  - injection E as <- <-. exact G.
+  - destruct (stop_inst o (set_wg s (wg_add (i_root o) 1 (wg s)))) as [sa ea] eqn:E1.
+    destruct (stop_all l sa) as [sb eb] eqn:E2. injection E as <- <-.
+    apply good_set_wg. eapply IH; [exact E2|]. eapply good_stop_inst; [exact E1|]. apply good_set_wg. exact G.
+Qed.
+
+Lemma plan_ok_next c i restart old oi ev saved :
+  start_plan c i restart old oi = (ev, true, saved) -> next_after c i = S i.
+Proof.
+  intro H. apply start_plan_shape in H. destruct H as [hd f su li tl _ _ _ _ _ _ _ _ _ _ Hok].
+  destruct (Hok eq_refl) as [P _]. unfold next_after. rewrite P. reflexivity.
+Qed.
+
+Lemma step_good s o s' ev r : step s o = (s', ev, r) -> good s -> good s'.
+Proof.
+  destruct o as [c|h c|h| |h| |h]; simpl; intros H G.
+  - unfold do_start in H. destruct (start_plan c (next s) false [] 0) as [[e ok] saved] eqn:E.
+    destruct ok; injection H as <- <- <-.
+    + rewrite (plan_ok_next _ _ _ _ _ _ _ E). apply good_commit; auto.
+    + apply good_set_next; [exact G|apply next_after_le].
+  - unfold do_restart in H. destruct (find_inst h (known s)) as [o|]; [|injection H as <- <- <-; exact G].
+    destruct (restart_body o c (set_wg s (wg_add (i_root o) 1 (wg s)))) as [[s1 e1] r1] eqn:E.
+    injection H as <- <- <-. apply good_set_wg.
+    apply restart_body_cases in E. cbv zeta in E. simpl in E.
+    destruct E as [[_ [-> _]] | [_ [e2 [ok2 [saved [P [[_ [-> _]] | [-> [e3 [S3 _]]]]]]]]]].
+    + apply good_set_wg. exact G.
+    + apply good_set_next; [apply good_set_wg; exact G|apply next_after_le].
+    + eapply good_stop_inst; [exact S3|]. rewrite (plan_ok_next _ _ _ _ _ _ _ P).
+      change (S (next s)) with (S (next (set_wg s (wg_add (i_root o) 1 (wg s))))).
+      apply good_commit; [apply good_set_wg; exact G|reflexivity].
+  - destruct (find_inst h (known s)) as [x|]; [|injection H as <- <- <-; exact G].
+    destruct (stop_inst x s) as [s2 e2] eqn:E. injection H as <- <- <-. eapply good_stop_inst; eauto.
+  - destruct (stop_all (insts s) s) as [s2 e2] eqn:E. injection H as <- <- <-. eapply good_stop_all; eauto.
+  - destruct (find_inst h (known s)); injection H as <- <- <-; exact G.
+  - destruct (once s); injection H as <- <- <-; [exact G|]. destruct G as [G1 G2 G3 G4]. constructor; simpl; auto.
+  - destruct (find_inst h (known s)); injection H as <- <- <-; exact G.
+Qed.
+
+Lemma good_init : good init.
+Proof. constructor; simpl; intros; try contradiction; constructor. Qed.
+
+Lemma final_good ops : forall s, good s -> good (final s ops).
+Proof.
+  induction ops as [|o l IH]; intros s G; simpl; [exact G|].
+  destruct (step s o) as [[s' ev] r] eqn:E. simpl. apply IH. eapply step_good; eauto.
+Qed.
+
+(* after every history the live instances have pairwise different numbers, are known, and all
+   numbers are below the next one *)
+Lemma live_instances_distinct ops : good (final init ops).
+Proof. apply final_good. apply good_init. Qed.
+
+(* ------------------------------------------------------------------ shutdown callbacks over a whole history *)
+(* well-formed histories: the embedding program reloads only live instances, never after the
+   process began to shut down, and does not call Instance.ShutdownCallbacks itself *)
+Definition target_ok (s : state) (o : op) : Prop :=
+  match o with
+  | ORestart h _ => In h (ids (insts s)) /\ once s = false
+  | OShutdownCbs _ => False
+  | _ => True
+  end.
+Fixpoint wf_from (s : state) (ops : list op) : Prop :=
+  match ops with
+  | [] => True
+  | o :: r => target_ok s o /\ wf_from (fst (fst (step s o))) r
+  end.
+
+Definition sd_ok (x : inst) (p : list nat) : Prop :=
+  p = [] \/ p = upto_fail (c_shutdown (i_cfg x)) \/ p = labels (c_shutdown (i_cfg x)).
+
+Record sdinv (s : state) (tr : list event) : Prop := mkSd {
+  sd_known : forall x, In x (known s) -> sd_ok x (proj KShutdown (i_id x) tr);
+  sd_live : once s = false -> forall x, In x (insts s) -> proj KShutdown (i_id x) tr = [];
+  sd_unknown : forall j, ~ In j (ids (known s)) -> proj KShutdown j tr = [] }.
+
+Lemma not_in_ids_next s : good s -> ~ In (next s) (ids (known s)).
+Proof.
+  intros [G1 _ _ _] C. unfold ids in C. apply in_map_iff in C as [x [Hx Hin]]. specialize (G1 x Hin). lia.
+Qed.
+
+Lemma sd_quiet s s' tr ev :
+  good s -> sdinv s tr ->
+  (forall j, proj KShutdown j ev = []) ->
+  (forall x, In x (known s') -> In x (known s) \/ i_id x = next s) ->
+  (forall x, In x (known s) -> In x (known s')) ->
+  (forall x, In x (insts s') -> In x (insts s) \/ i_id x = next s) ->
+  (once s' = false -> once s = false) ->
+  sdinv s' (tr ++ ev).
+Proof.
+  intros G [S1 S2 S3] Hq HK HK' HL HO.
+  pose proof (not_in_ids_next s G) as Hn.
+  constructor.
+  - intros x Hx. rewrite proj_app, Hq, app_nil_r. destruct (HK x Hx) as [H|H]; [auto|].
+    left. rewrite H. apply S3. exact Hn.
+  - intros O x Hx. rewrite proj_app, Hq, app_nil_r. destruct (HL x Hx) as [H|H]; [apply S2; auto|].
+    rewrite H. apply S3. exact Hn.
+  - intros j Hj. rewrite proj_app, Hq, app_nil_r. apply S3. intro C. apply Hj.
+    unfold ids in *. apply in_map_iff in C as [x [Hx Hin]]. apply in_map_iff. exists x. auto.
+Qed.
+
+Lemma no_shutdown_proj ev : (forall j l, ~ In (ECb KShutdown j l) ev) -> forall j, proj KShutdown j ev = [].
+Proof. intros H j. apply proj_nil_iff. intros n. apply H. Qed.
+
+Lemma stop_all_fields l : forall s s' ev, stop_all l s = (s', ev) ->
+  known s' = known s /\ once s' = once s /\ next s' = next s /\ (forall x, In x (insts s') -> In x (insts s)).
+Proof.
+  induction l as [|o l IH]; intros s s' ev E; simpl in E.
+  - injection E as <- <-. auto.
+  - destruct (stop_inst o (set_wg s (wg_add (i_root o) 1 (wg s)))) as [sa ea] eqn:E1.
+    destruct (stop_all l sa) as [sb eb] eqn:E2. injection E as <- <-. simpl.
+    destruct (IH _ _ _ E2) as [A [B [C D]]]. destruct (stop_inst_fields _ _ _ _ E1) as [A1 [B1 [C1 D1]]].
+    rewrite A, B, C, B1, C1, D1. simpl. repeat split; auto.
+    intros x Hx. apply D in Hx. rewrite A1 in Hx. simpl in Hx. eapply remove_id_incl; eauto.
+Qed.
+
+Lemma proj_all_shutdown_none j l : ~ In j (ids l) -> proj KShutdown j (all_shutdown l) = [].
+Proof.
+  intro H. apply proj_nil_iff. intros n C. apply in_all_shutdown in C as [x [m [Hx [E|E]]]]; [|discriminate].
+  injection E as -> ->. apply H. unfold ids. apply in_map. exact Hx.
+Qed.
+
+Lemma proj_shutdown_cbs x j :
+  proj KShutdown j (shutdown_cbs x) = if i_id x =? j then labels (c_shutdown (i_cfg x)) else [].
+Proof.
+  unfold shutdown_cbs. rewrite !run_all_labels, proj_app. unfold cb_events.
+  rewrite (proj_cbs_other KShutdown j KFinal) by reflexivity. rewrite app_nil_r.
+  destruct (i_id x =? j) eqn:E.
+  - apply Nat.eqb_eq in E. subst j. apply proj_cbs_same.
+  - apply proj_cbs_other. simpl. rewrite Nat.eqb_sym. exact E.
+Qed.
+
+Lemma proj_all_shutdown l : forall x, NoDup (ids l) -> In x l ->
+  proj KShutdown (i_id x) (all_shutdown l) = labels (c_shutdown (i_cfg x)).
+Proof.
+  induction l as [|y l IH]; intros x Hn Hin; simpl in *; [contradiction|].
+  inversion Hn as [|a b Hy Hd]; subst. unfold all_shutdown. simpl. rewrite proj_app, proj_shutdown_cbs.
+  destruct Hin as [->|Hin].
+  - rewrite Nat.eqb_refl. fold (all_shutdown l). rewrite proj_all_shutdown_none by exact Hy. apply app_nil_r.
+  - destruct (i_id y =? i_id x) eqn:E.
+    + apply Nat.eqb_eq in E. exfalso. apply Hy. rewrite E. unfold ids. apply in_map. exact Hin.
+    + simpl. apply IH; auto.
+Qed.
+
+Lemma live_is_found s x : good s -> In x (insts s) -> find_inst (i_id x) (known s) = Some x.
+Proof. intros [_ G2 G3 _] H. apply find_unique; auto. Qed.
+
+Lemma known_live s x : good s -> In x (known s) -> In (i_id x) (ids (insts s)) -> In x (insts s).
+Proof.
+  intros [G1 G2 G3 G4] Hk Hl. unfold ids in Hl. apply in_map_iff in Hl as [y [Hy Hin]].
+  pose proof (find_unique _ _ G2 (G3 y Hin)) as F1. pose proof (find_unique _ _ G2 Hk) as F2.
+  rewrite Hy in F1. rewrite F1 in F2. injection F2 as ->. exact Hin.
+Qed.
+
+Lemma step_sd s o s' ev r tr :
+  step s o = (s', ev, r) -> good s -> target_ok s o -> sdinv s tr -> sdinv s' (tr ++ ev).
+Proof.
+  intros H G T SD.
+  assert (Q : forall k : nat, (match o with ORestart _ _ | OShutdownCbs _ | OExecShutdown => False | _ => True end) ->
+              forall j l, ~ In (ECb KShutdown j l) ev).
+  { intros _ Ho j l Hin. pose proof (step_cb_kinds _ _ _ _ _ _ _ _ H Hin) as K.
+    destruct o; try contradiction. destruct K as [_ [D|D]]; discriminate. }
+  destruct o as [c|h c|h| |h| |h]; simpl in H, T.
+  - (* Start *)
+    apply (sd_quiet s); auto; try (apply no_shutdown_proj; apply (Q 0); exact I).
+    + unfold do_start in H. destruct (start_plan c (next s) false [] 0) as [[e ok] saved] eqn:E.
+      destruct ok; injection H as <- <- <-; simpl; auto.
+      destruct (commit_fields (mkInst (next s) (next s) c saved) (next_after c (next s)) s) as [_ [B _]]. rewrite B.
+      intros x Hx. apply in_app_or in Hx as [Hx|[<-|[]]]; auto.
+    + unfold do_start in H. destruct (start_plan c (next s) false [] 0) as [[e ok] saved] eqn:E.
+      destruct ok; injection H as <- <- <-; simpl; auto.
+      destruct (commit_fields (mkInst (next s) (next s) c saved) (next_after c (next s)) s) as [_ [B _]]. rewrite B.
+      intros x Hx. apply in_or_app. auto.
+    + unfold do_start in H. destruct (start_plan c (next s) false [] 0) as [[e ok] saved] eqn:E.
+      destruct ok; injection H as <- <- <-; simpl; auto.
+      destruct (commit_fields (mkInst (next s) (next s) c saved) (next_after c (next s)) s) as [A _]. rewrite A.
+      intros x Hx. apply in_app_or in Hx as [Hx|[<-|[]]]; auto.
+    + unfold do_start in H. destruct (start_plan c (next s) false [] 0) as [[e ok] saved] eqn:E.
+      destruct ok; injection H as <- <- <-; simpl; auto.
+      destruct (commit_fields (mkInst (next s) (next s) c saved) (next_after c (next s)) s) as [_ [_ [_ D]]]. rewrite D. auto.
+  - (* Restart of a live instance before process shutdown *)
+    destruct T as [Tl To].
+    unfold ids in Tl. apply in_map_iff in Tl as [o [Hoid Holive]].
+    pose proof (live_is_found s o G Holive) as F. rewrite Hoid in F.
+    unfold do_restart in H. rewrite F in H.
+    destruct (restart_body o c (set_wg s (wg_add (i_root o) 1 (wg s)))) as [[s1 e1] r1] eqn:E.
+    injection H as <- <- <-.
+    apply restart_body_cases in E. cbv zeta in E. simpl in E. rewrite Hoid in E.
+    assert (PL : forall e2 ok2 saved j, start_plan c (next s) true (i_srv o) h = (e2, ok2, saved) -> proj KShutdown j e2 = []).
+    { intros e2 ok2 saved j P. apply proj_nil_iff. intros n Hin.
+      apply start_plan_shape in P. destruct (plan_cb_in _ _ _ _ _ _ _ _ _ _ _ P Hin) as [_ [[D _]|D]]; discriminate. }
+    destruct E as [[_ [-> [_ ->]]] | [_ [e2 [ok2 [saved [P E]]]]]].
+    + apply (sd_quiet s); simpl; auto. intro j. unfold cb_events. rewrite proj_app, !proj_cbs_other by reflexivity. reflexivity.
+    + destruct E as [[_ [-> [_ ->]]] | [-> [e3 [S3 E]]]].
+      * apply (sd_quiet s); simpl; auto. intro j. unfold cb_events.
+        rewrite !proj_app, !proj_cbs_other by reflexivity. rewrite (PL _ _ _ j P). reflexivity.
+      * (* the switch-over happened *)
+        pose proof (stop_inst_events _ _ _ _ S3) as Hst.
+        destruct (stop_inst_fields _ _ _ _ S3) as [A [B [C D]]].
+        set (ni := mkInst (next s) (i_root o) c saved) in *.
+        destruct (commit_fields ni (next_after c (next s)) (set_wg s (wg_add (i_root o) 1 (wg s)))) as [A2 [B2 [C2 D2]]].
+        simpl in A2, B2, D2. rewrite A2 in A. rewrite B2 in B. rewrite D2 in D.
+        assert (Hh : h < next s).
+        { destruct G as [G1 _ G3 _]. specialize (G1 o (G3 o Holive)). lia. }
+        assert (PE : exists q, (q = upto_fail (c_shutdown (i_cfg o)) \/ q = labels (c_shutdown (i_cfg o))) /\
+                     forall j, proj KShutdown j e1 = if j =? h then q else []).
+        { destruct E as [[_ [_ ->]] | [_ [_ ->]]].
+          - exists (upto_fail (c_shutdown (i_cfg o))). split; [auto|]. intro j. unfold cb_events.
+            rewrite !proj_app, (PL _ _ _ j P), (proj_stop _ _ _ _ Hst), !(proj_cbs_other KShutdown j KRestart), !(proj_cbs_other KShutdown j KRestartFailed) by reflexivity.
+            simpl. rewrite app_nil_r. destruct (j =? h) eqn:Ej.
+            + apply Nat.eqb_eq in Ej. subst j. apply proj_cbs_same.
+            + apply proj_cbs_other. simpl. exact Ej.
+          - exists (labels (c_shutdown (i_cfg o))). split; [auto|]. intro j. unfold cb_events.
+            rewrite !proj_app, (PL _ _ _ j P), (proj_stop _ _ _ _ Hst), !(proj_cbs_other KShutdown j KRestart) by reflexivity.
+            simpl. rewrite app_nil_r. destruct (j =? h) eqn:Ej.
+            + apply Nat.eqb_eq in Ej. subst j. apply proj_cbs_same.
+            + apply proj_cbs_other. simpl. exact Ej. }
+        destruct PE as [q [Hq PE]]. destruct SD as [S1 S2 S3']. pose proof (not_in_ids_next s G) as Hn.
+        constructor; simpl.
+        -- rewrite B. intros x Hx. rewrite proj_app, PE. apply in_app_or in Hx as [Hx|[<-|[]]].
+           ++ destruct (i_id x =? h) eqn:Ex.
+              ** apply Nat.eqb_eq in Ex. assert (x = o).
+                 { pose proof (find_unique _ _ (g_nodup _ G) Hx) as F2. rewrite Ex, F in F2. injection F2 as ->. reflexivity. }
+                 subst x. rewrite (S2 To o Holive). simpl. destruct Hq as [->| ->]; [right; left|right; right]; reflexivity.
+              ** rewrite app_nil_r. auto.
+           ++ simpl. destruct (next s =? h) eqn:Ex; [apply Nat.eqb_eq in Ex; lia|]. rewrite app_nil_r. left. apply S3'. exact Hn.
+        -- rewrite D, A. intros _ x Hx.
+           assert (ND : NoDup (ids (insts s ++ [ni]))).
+           { unfold ids. rewrite map_app. simpl. apply nodup_snoc; [apply (g_nodup_l _ G)|].
+             intro Cx. apply Hn. unfold ids in *. apply in_map_iff in Cx as [z [Hz Hin]]. apply in_map_iff.
+             exists z. split; [exact Hz|]. apply (g_sub _ G). exact Hin. }
+           assert (Hne : i_id x <> i_id o).
+           { intro Cx. apply (remove_id_gone (i_id o) _ ND).
+             assert (Hm : In (i_id x) (ids (remove_id (i_id o) (insts s ++ [ni])))) by (unfold ids; apply in_map; exact Hx).
+             rewrite Cx in Hm. exact Hm. }
+           apply remove_id_incl in Hx. rewrite proj_app, PE.
+           destruct (i_id x =? h) eqn:Ex; [apply Nat.eqb_eq in Ex; congruence|]. rewrite app_nil_r.
+           apply in_app_or in Hx as [Hx|[<-|[]]]; [apply S2; auto|]. simpl. apply S3'. exact Hn.
+        -- rewrite B. intros j Hj. rewrite proj_app, PE.
+           assert (Hj' : ~ In j (ids (known s))).
+           { intro Cx. apply Hj. unfold ids in *. rewrite map_app. apply in_or_app. left. exact Cx. }
+           destruct (j =? h) eqn:Ej.
+           ++ apply Nat.eqb_eq in Ej. subst j. exfalso. apply Hj'. rewrite <- Hoid. unfold ids. apply in_map. apply (g_sub _ G). exact Holive.
+           ++ rewrite app_nil_r. apply S3'. exact Hj'.
+  - (* Instance.Stop *)
+    destruct (find_inst h (known s)) as [x|] eqn:F.
+    2:{ injection H as <- <- <-. rewrite app_nil_r. exact SD. }
+    destruct (stop_inst x s) as [s2 e2] eqn:E. injection H as <- <- <-.
+    destruct (stop_inst_fields _ _ _ _ E) as [A [B [C D]]].
+    apply (sd_quiet s); auto; try (apply no_shutdown_proj; apply (Q 0); exact I); rewrite ?A, ?B, ?D; auto.
+    intros y Hy. left. eapply remove_id_incl; eauto.
+  - (* Stop *)
+    destruct (stop_all (insts s) s) as [s2 e2] eqn:E. injection H as <- <- <-.
+    destruct (stop_all_fields _ _ _ _ E) as [A [B [C D]]].
+    apply (sd_quiet s); auto; try (apply no_shutdown_proj; apply (Q 0); exact I); rewrite ?A, ?B; auto.
+  - contradiction.
+  - (* executeShutdownCallbacks *)
+    destruct (once s) eqn:O; injection H as <- <- <-.
+    { rewrite app_nil_r. exact SD. }
+    destruct SD as [S1 S2 S3']. constructor; simpl.
+    + intros x Hx. rewrite proj_app. change (EHook HShutdown 0 :: all_shutdown (insts s)) with ([EHook HShutdown 0] ++ all_shutdown (insts s)).
+      rewrite proj_app. simpl (proj KShutdown (i_id x) [EHook HShutdown 0]). simpl.
+      destruct (in_dec Nat.eq_dec (i_id x) (ids (insts s))) as [L|L].
+      * pose proof (known_live s x G Hx L) as Hl. rewrite (S2 O x Hl). simpl.
+        rewrite (proj_all_shutdown _ _ (g_nodup_l _ G) Hl). right. right. reflexivity.
+      * rewrite (proj_all_shutdown_none _ _ L), app_nil_r. auto.
+    + discriminate.
+    + intros j Hj. rewrite proj_app. change (EHook HShutdown 0 :: all_shutdown (insts s)) with ([EHook HShutdown 0] ++ all_shutdown (insts s)).
+      rewrite proj_app. simpl (proj KShutdown j [EHook HShutdown 0]). simpl.
+      rewrite (S3' j Hj). simpl. apply proj_all_shutdown_none. intro C. apply Hj.
+      unfold ids in *. apply in_map_iff in C as [x [Hx Hin]]. apply in_map_iff. exists x. split; [exact Hx|]. apply (g_sub _ G). exact Hin.
+  - (* Wait *)
+    destruct (find_inst h (known s)); injection H as <- <- <-; rewrite app_nil_r; exact SD.
+Qed.
+
+Lemma sd_init : sdinv init [].
+Proof. constructor; simpl; intros; try contradiction; reflexivity. Qed.
+
+Lemma run_sd ops : forall s tr, good s -> sdinv s tr -> wf_from s ops ->
+  good (final s ops) /\ sdinv (final s ops) (tr ++ trace (run s ops)).
+Proof.
+  induction ops as [|o l IH]; intros s tr G SD W; simpl.
+  - rewrite app_nil_r. auto.
+  - simpl in W. destruct W as [T W]. destruct (step s o) as [[s' ev] r] eqn:E. simpl in W. simpl (fst (fst _)).
+    rewrite trace_cons. change (rec_events (o, ev, r)) with ev. rewrite app_assoc.
+    apply IH; [eapply step_good; eauto|eapply step_sd; eauto|exact W].
+Qed.
+
+(* over a well-formed history the shutdown callbacks of every instance run at most once, in
+   order: not at all, up to the first error (reload), or all of them *)
+Lemma shutdown_at_most_once ops :
+  wf_from init ops ->
+  (forall x, In x (known (final init ops)) -> sd_ok x (proj KShutdown (i_id x) (trace (run init ops)))) /\
+  (forall j, ~ In j (ids (known (final init ops))) -> proj KShutdown j (trace (run init ops)) = []).
+Proof.
+  intro W. destruct (run_sd ops init [] good_init sd_init W) as [_ [S1 _ S3]]. simpl in *. auto.
+Qed.
+
+Lemma wf_app a : forall s b, wf_from s (a ++ b) -> wf_from s a /\ wf_from (final s a) b.
+Proof.
+  induction a as [|o l IH]; intros s b W; simpl in *; [auto|].
+  destruct W as [T W]. destruct (IH _ _ W) as [W1 W2]. auto.
+Qed.
+
+Lemma after_once_quiet ops : forall s, once s = true -> wf_from s ops ->
+  forall k j, k = KShutdown \/ k = KFinal -> proj k j (trace (run s ops)) = [].
+Proof.
+  induction ops as [|o l IH]; intros s O W k j Hk; simpl; [reflexivity|].
+  simpl in W. destruct W as [T W]. destruct (step s o) as [[s' ev] r] eqn:E. simpl in W.
+  rewrite trace_cons, proj_app. change (rec_events (o, ev, r)) with ev.
+  assert (O' : once s' = true) by (rewrite (step_once _ _ _ _ _ E), O; reflexivity).
+  rewrite (IH s' O' W k j Hk), app_nil_r.
+  apply proj_nil_iff. intros n Hin. pose proof (step_cb_kinds _ _ _ _ _ _ _ _ E Hin) as K.
+  destruct o; simpl in T; try contradiction.
+  - destruct K as [_ [->| ->]]; destruct Hk; discriminate.
+  - destruct T as [_ T]. congruence.
+  - simpl in E. rewrite O in E. injection E as <- <- <-. contradiction.
+Qed.
+
+Lemma before_exec_no_final ops : forall s, wf_from s ops -> forallb (fun o => negb (is_exec o)) ops = true ->
+  forall j, proj KFinal j (trace (run s ops)) = [].
+Proof.
+  induction ops as [|o l IH]; intros s W N j; simpl; [reflexivity|].
+  simpl in W, N. destruct W as [T W]. apply andb_true_iff in N as [N1 N2].
+  destruct (step s o) as [[s' ev] r] eqn:E. simpl in W.
+  rewrite trace_cons, proj_app. change (rec_events (o, ev, r)) with ev.
+  rewrite (IH s' W N2 j), app_nil_r.
+  apply proj_nil_iff. intros n Hin.
+  destruct (final_shutdown_only_at_exit _ _ _ _ _ _ _ E Hin) as [->|[h [-> _]]]; [discriminate|contradiction].
+Qed.
+
+Lemma proj_final_cbs x j :
+  proj KFinal j (shutdown_cbs x) = if i_id x =? j then labels (c_final (i_cfg x)) else [].
+Proof.
+  unfold shutdown_cbs. rewrite !run_all_labels, proj_app. unfold cb_events.
+  rewrite (proj_cbs_other KFinal j KShutdown) by reflexivity. simpl.
+  destruct (i_id x =? j) eqn:E.
+  - apply Nat.eqb_eq in E. subst j. apply proj_cbs_same.
+  - apply proj_cbs_other. simpl. rewrite Nat.eqb_sym. exact E.
+Qed.
+
+Lemma proj_final_all_none j l : ~ In j (ids l) -> proj KFinal j (all_shutdown l) = [].
+Proof.
+  intro H. apply proj_nil_iff. intros n C. apply in_all_shutdown in C as [x [m [Hx [E|E]]]]; [discriminate|].
+  injection E as -> ->. apply H. unfold ids. apply in_map. exact Hx.
+Qed.
+
+Lemma proj_final_all l : forall x, NoDup (ids l) -> In x l ->
+  proj KFinal (i_id x) (all_shutdown l) = labels (c_final (i_cfg x)).
+Proof.
+  induction l as [|y l IH]; intros x Hn Hin; simpl in *; [contradiction|].
+  inversion Hn as [|a b Hy Hd]; subst. unfold all_shutdown. simpl. rewrite proj_app, proj_final_cbs.
+  destruct Hin as [->|Hin].
+  - rewrite Nat.eqb_refl. fold (all_shutdown l). rewrite proj_final_all_none by exact Hy. apply app_nil_r.
+  - destruct (i_id y =? i_id x) eqn:E.
+    + apply Nat.eqb_eq in E. exfalso. apply Hy. rewrite E. unfold ids. apply in_map. exact Hin.
+    + simpl. apply IH; auto.
+Qed.
+
+Lemma proj_cons_hook k i h j l : proj k i (EHook h j :: l) = proj k i l.
+Proof. reflexivity. Qed.
+
+(* process shutdown: whatever happened before (starts, reloads successful or failed, stops) and
+   however many signals follow, every instance live when the first signal arrives has ALL its
+   shutdown callbacks and ALL its final-shutdown callbacks run exactly once over the whole
+   history, in order *)
+Lemma process_shutdown_exactly_once pre post x :
+  forallb (fun o => negb (is_exec o)) pre = true ->
+  wf_from init (pre ++ OExecShutdown :: post) ->
+  In x (insts (final init pre)) ->
+  let tr := trace (run init (pre ++ OExecShutdown :: post)) in
+  proj KShutdown (i_id x) tr = labels (c_shutdown (i_cfg x)) /\
+  proj KFinal (i_id x) tr = labels (c_final (i_cfg x)).
+Proof.
+  intros N W Hx. cbv zeta.
+  destruct (wf_app _ _ _ W) as [W1 W2].
+  destruct (run_sd pre init [] good_init sd_init W1) as [G [_ S2 _]]. simpl in S2.
+  destruct (no_exec_run pre init N) as [_ O]. simpl in O.
+  rewrite run_app. unfold trace. rewrite flat_map_app. fold (trace (run init pre)).
+  simpl (run (final init pre) (OExecShutdown :: post)). rewrite O. simpl in W2. rewrite O in W2. simpl in W2. destruct W2 as [_ W2].
+  simpl (flat_map _ (_ :: _)). unfold rec_events at 2. simpl (snd (fst _)).
+  match goal with |- context [run ?s1 post] => set (s1' := s1) in * end.
+  fold (trace (run s1' post)).
+  assert (O1 : once s1' = true) by reflexivity.
+  split.
+  - rewrite !proj_app. rewrite (S2 O x Hx). simpl.
+    rewrite proj_cons_hook, proj_app.
+    rewrite (proj_all_shutdown _ _ (g_nodup_l _ G) Hx).
+    rewrite (after_once_quiet post s1' O1 W2 KShutdown (i_id x) (or_introl eq_refl)). apply app_nil_r.
+  - rewrite !proj_app. rewrite (before_exec_no_final pre init W1 N). simpl.
+    rewrite proj_cons_hook, proj_app.
+    rewrite (proj_final_all _ _ (g_nodup_l _ G) Hx).
+    change (flat_map (fun r : record => snd (fst r)) (run s1' post)) with (trace (run s1' post)).
+    rewrite (after_once_quiet post s1' O1 W2 KFinal (i_id x) (or_intror eq_refl)). apply app_nil_r.
+Qed.
